@@ -1,7 +1,7 @@
 (* LR/ValidateProofs.v — soundness of the validator: validate = true gives the
    invariants, hence the three theorems for the validated tables. *)
 From Coq Require Import List Arith Lia Bool.
-From Kiki Require Import Base.Ord Base.Chars Data LR.Driver LR.Grammar LR.Inv LR.Complete LR.Sound LR.Validate.
+From Kiki Require Import Base.Ord Base.Chars Data LR.Driver LR.Grammar LR.Inv LR.Complete LR.Sound LR.Validate LR.Term.
 Import ListNotations.
 Open Scope nat_scope.
 
@@ -336,6 +336,17 @@ Section VP.
   Theorem validated_safe : forall fuel w site, Forall (fun p => kind p < pt_nterm T) w ->
     parse kind T fuel w <> OPanic site.
   Proof. apply (safe kind T ann validate_Inv2). Qed.
+
+  (* with a checked termination certificate the loop stops on every input *)
+  Theorem validated_terminates : forall K phi, term_check T ann K phi = true ->
+    forall w, Forall (fun p => kind p < pt_nterm T) w ->
+    parse kind T (K + ph phi (pt_start T) + length w * (K + M phi + 1) + 1) w <> OOutOfFuel.
+  Proof.
+    intros K phi Ht. apply (terminates kind T ann K phi validate_Inv2).
+    - intros s c a H. apply (get_action_col s c a H).
+    - intros s x s' H. apply (goto_sym_in_all_syms s x s' H).
+    - exact Ht.
+  Qed.
 
   Theorem validated_sound : forall fuel w t, Forall (fun p => kind p < pt_nterm T) w ->
     parse kind T fuel w = OAccept t -> wf kind T (PN (pt_start_nt T)) t /\ yield t = w.
